@@ -936,12 +936,16 @@ func vfC16NewSrv(t *testing.T, rpm, ddrpm, conc int, seed int64) *vfC16Srv {
 // settle lets the server run until it has finished the request or waits for the client; virtual
 // time advances in small steps while it does neither (the random wait before the dial back).
 func (s *vfC16Srv) settle(q *vfC16Req) {
-	for i := 0; i < 400; i++ {
+	for i := 0; i < 40; i++ {
 		synctest.Wait()
 		if q.isDone() || q.st.isWaiting() {
 			return
 		}
-		time.Sleep(100 * time.Millisecond)
+		if i == 0 {
+			time.Sleep(s.srv.amplificatonAttackPreventionDialWait + time.Millisecond) // the longest random wait before the dial back
+		} else {
+			time.Sleep(time.Second)
+		}
 	}
 	s.t.Fatalf("server neither finished nor waits for the client after 40 s of virtual time")
 }
@@ -1053,9 +1057,12 @@ func (s *vfC16Srv) split(total int64, style int) []int64 {
 
 // send appends dial-data messages of the given sizes to the stream and to the delivery ledger.
 func (s *vfC16Srv) send(q *vfC16Req, sizes []int64) {
-	var buf []byte
+	var buf, m []byte
+	last := int64(-1)
 	for _, n := range sizes {
-		m := vfC16DataMsg(int(n))
+		if n != last {
+			m, last = vfC16DataMsg(int(n)), n
+		}
 		buf = append(buf, m...)
 		if k := len(q.runs); k > 0 && q.runs[k-1].raw == int64(len(m)) && q.runs[k-1].data == n {
 			q.runs[k-1].n++
